@@ -508,10 +508,11 @@ def oracle_lig(case, lo):
     """univariate Ligero end to end, on library outputs only: the honest proof is accepted for p(z), refused or rejected
     for p(z) + delta; a mutated proof that the verifier accepts must be one whose checked part is unchanged"""
     fails = []
-    if case.kind != "c13" or case.fields["sub"][0] != "ligflow":
+    if case.kind != "c13" or case.fields["sub"][0] not in ("ligflow", "ligmulti"):
         return fails
     lig = case.fields["lig"]
-    who = "%s(sec=%s, rho_inv=%s, wf=%s), %d coefficients/evaluations" % (case.fields["scheme"][0], lig[0], lig[1], lig[2], len(case.fields["poly"]))
+    sizes = [len(v) for k, v in sorted(case.fields.items()) if k == "poly" or k.startswith("poly.")]
+    who = "%s(sec=%s, rho_inv=%s, wf=%s), polynomial(s) of %s coefficients/evaluations" % (case.fields["scheme"][0], lig[0], lig[1], lig[2], "/".join(map(str, sizes)))
     for step in ("commit", "open"):
         if lib_s(lo, step) != "ok":
             fails.append("%s: %s aborted: %s" % (who, step, lib_s(lo, step)))
@@ -520,7 +521,7 @@ def oracle_lig(case, lo):
         fails.append("%s: honest opening -> %s" % (who, lib_s(lo, "check")))
     if lib_s(lo, "check_bad") == "accept":
         fails.append("%s: p(z) + delta accepted with the honest proof" % who)
-    benign = ("extra_col",)       # zip with the queried indices ignores a trailing column/path
+    benign = ("extra_col", "list_extend")       # zip with the queried indices / the claims ignores a trailing column, path or proof
     for i, kd in enumerate(case.meta.get("mut_kinds", [])):
         d = lib_s(lo, "mut.%d" % i)
         if d == "accept" and kd not in benign:
@@ -619,7 +620,7 @@ def oracle_c16(case, lo):
 PROPS = {
     "C01": {
         "props_file": "props/C01.v",
-        "flows": [(gen_kzg.gen, "c01", 60, 600), (gen_pc.gen, "c01", 96, 960), (gen_mlpc.gen, "c01", 16, 160), (gen_lig.gen, "c01", 12, 120)],
+        "flows": [(gen_kzg.gen, "c01", 60, 600), (gen_pc.gen, "c01", 96, 960), (gen_mlpc.gen, "c01", 16, 160), (gen_lig.gen, "c01", 12, 120), (gen_lig.gen_multi, "c01", 8, 80)],
         "filter": None,
         "oracles": [oracle_c01_kzg, pc_honest, oracle_mlpc, oracle_lig, lambda c, lo: pc_mutations(c, lo, ("vperm",))],
         "title": "Completeness",
@@ -633,14 +634,14 @@ PROPS = {
     },
     "C02": {
         "props_file": "props/C02.v",
-        "flows": [(gen_kzg.gen, "c02", 60, 600), (gen_pc.gen, "c02", 160, 1600), (gen_mlpc.gen, "c02", 16, 160), (gen_lig.gen, "c02", 12, 120)],
+        "flows": [(gen_kzg.gen, "c02", 60, 600), (gen_pc.gen, "c02", 160, 1600), (gen_mlpc.gen, "c02", 16, 160), (gen_lig.gen, "c02", 12, 120), (gen_lig.gen_multi, "c02", 8, 80)],
         "oracles": [oracle_kzg_muts, oracle_kzg_batches, oracle_mlpc, oracle_lig, lambda c, lo: pc_mutations(c, lo, ("value", "comm_swap", "cancel"))],
         "accept_diffs": ("mut.", "batch."),
         "title": "Evaluation binding (honest proof, false claim)",
     },
     "C03": {
         "props_file": "props/C03.v",
-        "flows": [(gen_kzg.gen, "c03", 40, 400), (gen_pc.gen, "c03", 160, 1600), (gen_mlpc.gen, "c03", 16, 160), (gen_lig.gen, "c03", 16, 160)],
+        "flows": [(gen_kzg.gen, "c03", 40, 400), (gen_pc.gen, "c03", 160, 1600), (gen_mlpc.gen, "c03", 16, 160), (gen_lig.gen, "c03", 16, 160), (gen_lig.gen_multi, "c03", 8, 80)],
         "oracles": [oracle_mlpc, oracle_lig, lambda c, lo: pc_mutations(c, lo, ("proofs", "proof_mut", "proof_mut_v", "attack"))],
         "accept_diffs": ("mut.",),
         "title": "Evaluation binding (crafted proofs)",
@@ -654,7 +655,7 @@ PROPS = {
     },
     "C10": {
         "props_file": "props/C10.v",
-        "flows": [(gen_kzg.gen, "c10", 40, 400), (gen_pc.gen, "c10", 160, 1600), (gen_lig.gen, "c10", 16, 160)],
+        "flows": [(gen_kzg.gen, "c10", 40, 400), (gen_pc.gen, "c10", 160, 1600), (gen_lig.gen, "c10", 16, 160), (gen_lig.gen_multi, "c10", 8, 80)],
         "oracles": [oracle_kzg_muts, pc_honest, oracle_lig, lambda c, lo: pc_mutations(c, lo, ("value", "comm_swap", "cancel", "proof_mut"))],
         "accept_diffs": ("mut.", "batch."),
         "title": "Verifiers decide the published relation",
